@@ -7,9 +7,11 @@ import sys
 import common, enc, gen, sweep, impl, seq
 import segno
 
-TOP = ['theories/Props/C14.v', 'theories/Tie/TieTables.v', 'theories/Tie/TieMaskArg.v', 'theories/Tie/TieVersion.v']
+TOP = ['theories/Props/C14.v', 'theories/Tie/TieTables.v', 'theories/Tie/TieMaskArg.v', 'theories/Tie/TieVersion.v', 'theories/Tie/TieNorm.v', 'theories/Tie/TieEncodeTop.v', 'theories/Tie/TieColor.v', 'theories/Tie/TieWrColorFull.v']
 RULE = ('product of the documented argument domains for make / make_qr / make_micro / make_sequence including boundary and malformed values '
-        '(empty content, odd-length kanji, version "m5", mask 8, error "x", numeric strings with sign/space/underscore, bools, case variants), '
+        '(empty content, odd-length kanji, version "m5", mask 8, error "x", numeric strings with sign/space/underscore, control characters, '
+        'Unicode spaces and decimal digits, the 4300-digit limit of int(); bools, case variants including the non-ASCII code points whose '
+        'str.lower() / upper() contains an ASCII character: Kelvin sign, dotless i, long s, ligatures), '
         'serializer arguments (scale, border, colours, kind) and the command line; the exception class of the implementation is compared with '
         'the extracted model and checked against the allowed set; alternative spellings must give the canonical symbol')
 
@@ -23,13 +25,44 @@ def pv(v):
         return 'B1' if v else 'B0'
     if isinstance(v, int):
         return 'I%d' % v
-    return 'S' + v.encode('ascii').hex() if v else 'S'
+    if not v:
+        return 'S'
+    if all(ord(ch) < 128 for ch in v):
+        return 'S' + v.encode('ascii').hex()
+    return 'U' + '.'.join(str(ord(ch)) for ch in v)      # any str: the code points in decimal (ocaml/driver.ml pyval_of_string)
 
 
 VERSIONS = [None, 1, 2, 7, 40, 41, 0, -1, 'M1', 'm1', 'M4', 'm3', 'M5', 'm5', '1', ' 2 ', '+3', '0', '-1', '4_0', '1_0', '41', 'x', '', True, False, '007']
 ERRORS = [None, 'L', 'l', 'M', 'm', 'Q', 'q', 'H', 'h', 'x', '', 'LL', 1, 0, 3, 2, 4, -1, True, False]
 MODES = [None, 'numeric', 'NUMERIC', 'Alphanumeric', 'byte', 'Byte', 'kanji', 'KANJI', 'hanzi', 'Hanzi', 'binary', '', 1, 2, 4, 8, 13, 3, 7, 0, True, False]
 MASKS = [None, 0, 3, 4, 7, 8, -1, '0', '7', '8', ' 3', '+2', '-0', 'x', '', True, False, '1_0']
+# Strings that separate CPython's int(str) from "strip the str.isspace() characters, then parse" (DESIGN.md 11.11.1): \x1c .. \x1f are
+# str.isspace() but never skipped by int(); a str with a non-ASCII code point is first rewritten (Unicode spaces -> ' ', Unicode decimal
+# digits -> ASCII digits, anything else refused); single underscores between digits; one sign directly before the digits; more than
+# 4300 digit characters are refused.  The digit is 5 for a version, 3 for a mask.
+def int_forms(n):
+    d, fw, ar, ea, mb = str(n), chr(0xff10 + n), chr(0x660 + n), chr(0x6f0 + n), chr(0x1d7ce + n)    # ASCII, full-width, Arabic-Indic, ..
+    return ['\x1c' + d, d + '\x1f', '\x1c' + d + ' ', '\x1c' + d + '\u2003', d + '\x1c\uff10', fw, ar, ea, mb, '0_' + d, '_' + d, d + '_', '0__' + d,
+            '+ ' + d, '- ' + d, '+' + d, '-' + d, '++' + d, '\t' + d + '\n', '\x0b' + d + '\x0c\r', '\u2003' + d + '\xa0', '\x85' + d + '\u3000',
+            '\u1680' + fw + '\u2028', d + '\u200b', d + '\xe9', '\x7f' + d, '\x7f' + fw, '\uff0b' + d, '\u2212' + d, '\uff10_' + fw, '\u0660' + d, d + '\x00',
+            d + ' ' + d, fw + ' ' + fw, d + '.0', '0x' + d, '\xb2', '\u2460', '\x1e', '\x1e\u2003',
+            '0' * 4299 + d, '0' * 4300 + d, '\u2003' * 4400 + d, '\uff10' * 4300 + d]
+
+
+INT_VERSIONS = int_forms(5) + ['1_0', '\uff14\uff10', '\uff14\uff11', '\uff2d1', 'M\uff11', '\u217f1']
+INT_MASKS = int_forms(3) + ['\uff17', '\uff18', '\u0664']
+VERSIONS += [INT_VERSIONS[i] for i in (0, 1, 2, 5, 6, 10, 13, 18, 20)]      # a few of them in the random product as well
+MASKS += [INT_MASKS[i] for i in (0, 1, 2, 5, 6, 10, 13, 18, 20)]
+# str.lower() / str.upper() beyond ASCII (DESIGN.md 11.14.1).  Python lowers the Kelvin sign U+212A to 'k' ('\u212aanji' IS kanji) and
+# U+0130 to 'i' + U+0307; upper() maps dotless i U+0131 to 'I', long s U+017F to 'S', sharp s to 'SS', U+1E96 to 'H' + U+0331, the
+# ligatures U+FB00 .. U+FB06 to 'FF' .. 'ST'.  Every other non-ASCII code point has an image without ASCII characters.
+CASE_MODES = ['\u212aanji', '\u212aANJI', 'kanj\u0131', 'KANJ\u0131', 'kanj\u0130', 'KANJ\u0130', 'byt\xe9', 'BYT\xc9', 'han\u017fi', 'alphanumer\u0131c',
+              '\u212a', 'kanji\u0307', 'numeri\u0441', 'HAN\u2124I', '\uff4banji']
+CASE_ERRORS = ['\u017f', '\u0131', '\u1e96', '\ufb02', '\xdf', '\u212a', 'l\u0307', '\uff2c', '\u216c', 'h\u0331', '\u210d', '\u211a']
+CASE_VERSIONS = ['m\u0131', 'M\u0131', '\u017f1', '\uff2d1', '\u217f1', 'm\uff11', '\u2133\u0031', 'M1\u0307', '\ufb011', '\xdf1']
+MODES += CASE_MODES[:6]
+ERRORS += CASE_ERRORS[:4]
+VERSIONS += CASE_VERSIONS[:3]
 CONTENTS = ['', '0', '12345', 'HELLO WORLD', 'hello', 'ä', '点', '漢字', 'a' * 20, b'', b'\x81', b'\x93\x5f', b'\x93\x5f\x93', b'\x82\x00', 0, 7, 12345678901234567890, -5,
             'A' * 4296, '1' * 7089, '1' * 7090, b'\xff' * 2953, b'\xff' * 2954, '\ud800']
 
@@ -96,6 +129,81 @@ def run(ctx):
         for err in (None, 'L', 'M', 'Q', 'H', 'l', 'h'):
             for mode in (None, 'numeric', 'alphanumeric', 'byte', 'kanji', 'hanzi'):
                 cases.append({'content': '12', 'version': ver, 'error': err, 'mode': mode})
+    # int(str): every discriminating string as the version and as the mask (Micro and not), and the Unicode tables of the model
+    for v in INT_VERSIONS:
+        cases.append({'content': '12', 'version': v})
+    for mk in INT_MASKS:
+        cases.append({'content': '12', 'mask': mk})
+        cases.append({'content': '12', 'mask': mk, 'version': 'M3'})
+    spaces, zeros = int_tables_of_cpython()
+    for sp in spaces:
+        cases.append({'content': '12', 'version': chr(sp) + '5' + chr(sp)})
+        cases.append({'content': '12', 'mask': '3' + chr(sp)})
+    for z in zeros:
+        if z > 127:
+            cases.append({'content': '12', 'version': chr(z) + chr(z + 7)})
+            cases.append({'content': '12', 'mask': chr(z + 3)})
+            cases.append({'content': '12', 'version': chr(z - 1)})
+            cases.append({'content': '12', 'version': chr(z + 10)})
+    # str.lower() / str.upper() beyond ASCII: every discriminating spelling through encode() ...
+    for mo in CASE_MODES:
+        cases.append({'content': b'\x93\x5f', 'mode': mo})
+        cases.append({'content': '12', 'mode': mo, 'version': 1})
+    for e in CASE_ERRORS:
+        cases.append({'content': '12', 'error': e})
+    for v in CASE_VERSIONS:
+        cases.append({'content': '12', 'version': v})
+    # ... and through the normalisers alone (oracle commands norm_mode / norm_error / norm_version), one code point at a time as well:
+    # each listed code point in the place of the ASCII letter it maps to, in every name that has that letter
+    lower_sp, upper_sp, case_problems = case_tables_of_cpython()
+    for prob in case_problems:
+        corr.append({'case': 'str.lower() / str.upper() of the running interpreter', 'impl': prob[:120], 'model': 'Base/PyCase.v assumes otherwise'})
+    norm_modes = list(MODES) + CASE_MODES
+    norm_errors = list(ERRORS) + CASE_ERRORS
+    norm_versions = [v for v in VERSIONS if not (isinstance(v, str) and len(v) > 100)] + CASE_VERSIONS
+    for c, img in lower_sp:
+        for name in ('numeric', 'alphanumeric', 'byte', 'kanji', 'hanzi'):
+            for ch in set(img):
+                if ch in name:
+                    norm_modes += [name.replace(ch, chr(c)), name.upper().replace(ch.upper(), chr(c)), name.replace(img, chr(c))]
+    for c, img in upper_sp:
+        for name in ('L', 'M', 'Q', 'H', 'M1', 'M2', 'M3', 'M4'):
+            for ch in set(img):
+                if ch in name:
+                    (norm_errors if len(name) == 1 else norm_versions).extend([name.replace(ch, chr(c)), name.lower().replace(ch.lower(), chr(c))])
+        norm_errors.append(chr(c))
+        norm_versions.append(chr(c) + '1')
+    nreq, nimpl = [], []
+    for v in norm_modes:
+        nreq.append('norm_mode ' + pv(v))
+        nimpl.append((('normalize_mode', v), impl.call(lambda: impl.encoder.normalize_mode(v))))
+    for v in norm_errors:
+        for acc in (True, False):
+            nreq.append('norm_error %s %d' % (pv(v), acc))
+            nimpl.append((('normalize_errorlevel', v, acc), impl.call(lambda: impl.encoder.normalize_errorlevel(v, accept_none=acc))))
+    for v in norm_versions:
+        nreq.append('norm_version ' + pv(v))
+        nimpl.append((('normalize_version', v), impl.call(lambda: impl.encoder.normalize_version(v))))
+    for (what, r), m in zip(nimpl, common.oracle_parallel(nreq, chunk=200)):
+        n_cases += 1
+        s = ('OK %s' % ('-' if r[1] is None else int(r[1]))) if r[0] == 'ok' else 'ERR ' + r[1]
+        dist['norm ' + (s if s.startswith('ERR') else 'ok')] = dist.get('norm ' + (s if s.startswith('ERR') else 'ok'), 0) + 1
+        if s != m:
+            corr.append({'case': {'call': what[0], 'args': [repr(a) for a in what[1:]]}, 'impl': s, 'model': m})
+        if r[0] != 'ok' and r[1] not in ALLOWED:
+            failures.append({'input': {'call': what[0], 'args': [repr(a) for a in what[1:]]}, 'observed': '%s: %s' % (r[1], r[2]),
+                             'expected': 'a value or ValueError'})
+    case_model = common.oracle_parallel(['case_tables'], chunk=1)[0]
+    fmt = lambda tab: ';'.join('%d:%s' % (c, ','.join(str(ord(x)) for x in img)) for c, img in tab) or '-'
+    case_want = '%s %s' % (fmt(lower_sp), fmt(upper_sp))
+    if case_model != case_want:
+        corr.append({'case': 'non-ASCII code points whose str.lower() / str.upper() contains an ASCII character, with their images',
+                     'impl': case_want[:200], 'model': case_model[:200]})
+    tables = common.oracle_parallel(['int_tables'], chunk=1)[0]
+    want = '%s %s' % (','.join(map(str, spaces)), ','.join(map(str, zeros)))
+    if tables != want:
+        corr.append({'case': 'Unicode tables of int(str): str.isspace() code points >= 127 / zero digits of the decimal-digit runs',
+                     'impl': want[:120], 'model': tables[:120]})
     reqs, keep = [], []
     for c in cases:
         try:
@@ -127,10 +235,10 @@ def run(ctx):
     # ---- 2. documented exclusions are always refused; alternative spellings give the canonical symbol
     for content in ('12345', 'HELLO', 'hello world'):
         canon = segno.make(content, version=2, error='Q', mode='byte', mask=3, boost_error=False)
-        for v in (2, '2', ' 2', '+2', '02', True and 2):
+        for v in (2, '2', ' 2', '+2', '02', True and 2, '\t2\n', '0_2', '\uff12', '\u0662', '\u20032\xa0'):
             for e in ('Q', 'q'):
                 for mo in ('byte', 'BYTE', 'Byte', 4):
-                    for ma in (3, '3', ' 3', '+3'):
+                    for ma in (3, '3', ' 3', '+3', '\uff13', '\u06f3\u3000'):
                         n_cases += 1
                         s, q = run_make({'content': content, 'version': v, 'error': e, 'mode': mo, 'mask': ma, 'boost_error': False}, segno.make)
                         if q is None or q.matrix != canon.matrix or q.designator != canon.designator:
@@ -207,7 +315,50 @@ def run(ctx):
                   # strings that int(pair, 16) would accept although they are not hexadecimal digit strings
                   '#+f+f+f', '# 1 1 1', '#1 2 3 ', '#-1-1-1', '#\uff11\uff11\uff12\uff12\uff13\uff13', '#+1+2+3+4', '# f f f f',
                   '#\u0661\u0661\u0662\u0662\u0663\u0663', '#1_1_1_1_', '#0x10x10x1', '#\t1\t1\t1', '#12345\n', '# 12', '#+12', '#12 4']
+    # 'ındigo' (dotless i: lower() keeps it), 'İndigo' (U+0130 lowers to 'i' + U+0307), a Cyrillic 'с', the Kelvin sign inside a hex string
+    bad_colors += ['\u0131ndigo', '\u0130ndigo', 'bla\u0441k', '#\u212a\u212a\u212a', 'blac\uff4b', 'blacK\u0307', '\u017filver', 'bei\u0261e']
     good_colors = ['#123', 'red', 'RED', '#aAbBcC', (1, 2, 3), '#1234', '#11223344', (1, 2, 3, 4)]
+    # str.lower() maps the Kelvin sign U+212A to 'k': these ARE black, darkblue, khaki, ... for Python (DESIGN.md 11.14.1)
+    kelvin_colors = {'blac\u212a': 'black', 'BLAC\u212a': 'black', 'dar\u212ablue': '#00008b', '\u212ahaki': '#f0e68c', 'dar\u212a\u212ahaki': 'darkkhaki',
+                     'Hotpin\u212a': 'hotpink', 'WHITESMO\u212aE': 'whitesmoke'}
+    good_colors += list(kelvin_colors)
+    # the colour conversion itself, implementation against the extracted model (Model/Color.v color_to_rgba), both alpha modes
+    def ctok(c):
+        return ('T:' + '.'.join(str(x) for x in c)) if isinstance(c, tuple) else 'S:' + '.'.join(str(ord(ch)) for ch in c)
+    col_all = bad_colors + good_colors + list(kelvin_colors.values()) + ['black', 'BLACK', 'Black', '#000', 'khaki', 'transparent', 'none', '#FFF', 'White',
+                                                                        ' black', 'black ', 'bl ack']
+    col_all += [n.replace('k', '\u212a') for n in impl.writers._NAME2RGB if 'k' in n] + [n.replace('i', '\u0131', 1) for n in list(impl.writers._NAME2RGB)[:40] if 'i' in n]
+    creq2, cimpl2 = [], []
+    for c in col_all:
+        for af in (False, True):
+            creq2.append('color_rgba %s %d' % (ctok(c), af))
+            cimpl2.append((c, af, impl.call(lambda: impl.writers._color_to_rgba(c, alpha_float=af))))
+    for (c, af, r), m in zip(cimpl2, common.oracle_parallel(creq2, chunk=200)):
+        n_cases += 1
+        if r[0] == 'ok':
+            rgba = r[1]
+            a = rgba[3]
+            units = round(a * 10000) if af else a
+            s = 'OK %d,%d,%d,%d' % (rgba[0], rgba[1], rgba[2], units) if (not af or a == units / 10000) and len(rgba) == 4 else 'OK %r' % (rgba,)
+        else:
+            s = 'ERR ' + r[1]
+            if r[1] != 'ValueError':
+                failures.append({'input': {'call': '_color_to_rgba', 'color': repr(c), 'alpha_float': af}, 'observed': '%s: %s' % (r[1], r[2]),
+                                 'expected': 'a colour or ValueError'})
+        if s != m:
+            corr.append({'case': {'call': '_color_to_rgba', 'color': repr(c), 'alpha_float': af}, 'impl': s, 'model': m})
+    # a name spelled with the Kelvin sign gives the very output of the plain name
+    for kind in ('svg', 'png', 'ppm', 'pam', 'xpm'):
+        for spelled, plain in kelvin_colors.items():
+            n_cases += 1
+            outs = []
+            for col in (spelled, plain):
+                o = io.StringIO() if kind == 'xpm' else io.BytesIO()
+                r = impl.call(lambda: q.save(o, kind=kind, dark=col, light='#eee'))
+                outs.append(o.getvalue() if r[0] == 'ok' else 'ERR ' + r[1])
+            if outs[0] != outs[1]:
+                failures.append({'input': {'call': 'save', 'kind': kind, 'dark': repr(spelled)}, 'observed': repr(outs[0][:60]),
+                                 'expected': 'the output for dark=%r (str.lower() maps U+212A to k)' % plain})
     for kind in kinds:
         for kw, must_fail in ([({'scale': 0}, True), ({'scale': -1}, True), ({'border': -1}, True), ({'border': 1.5}, True),
                                ({'scale': 1}, False), ({'border': 0}, False), ({'scale': 2, 'border': 3}, False), ({'scale': 0.5}, None), ({'scale': 2.7}, False)]
@@ -263,6 +414,66 @@ def run(ctx):
     return {'failures': failures, 'correspondence_broken': corr_b, 'correspondence_details': corr[:10], 'evaluations': n_cases,
             'distinct_nontrivial': len(distinct), 'rule': RULE, 'samples': samples, 'distribution': dist,
             'searched': '%d argument combinations' % n_cases}
+
+
+def int_tables_of_cpython():
+    """What int(str) of the running interpreter does, code point by code point: the code points >= 127 it skips as whitespace and
+    the zero digits of the runs z .. z + 9 it reads as the decimal digits 0 .. 9 (every accepted digit must lie in such a run)."""
+    def val(s):
+        try:
+            return int(s)
+        except ValueError:
+            return None
+    dec = {}
+    spaces = []
+    for c in range(0x110000):
+        ch = chr(c)
+        v = val(ch)
+        if v is not None:
+            dec[c] = v
+        elif c >= 127 and val(ch + '5') == 5 and val('5' + ch) == 5:
+            spaces.append(c)
+    zeros = sorted(c for c, v in dec.items() if v == 0)
+    assert len(dec) == 10 * len(zeros) and all(dec.get(z + i) == i for z in zeros for i in range(10)), 'decimal digits outside runs of ten'
+    return spaces, zeros
+
+
+def case_tables_of_cpython():
+    """What str.lower() / str.upper() of the running interpreter do, code point by code point, as far as ASCII characters are concerned:
+    the non-ASCII code points whose image contains an ASCII character (with the image), and a list of problems -- anything that
+    contradicts what Base/PyCase.v assumes about the rest: ASCII code points follow the ASCII rule, every other image is non-empty and
+    free of ASCII characters, the listed images do not depend on the context, the result is the concatenation of the images."""
+    problems = []
+    tabs = []
+    for meth, lo, hi, d in ((str.lower, 65, 90, 32), (str.upper, 97, 122, -32)):
+        tab = []
+        for c in range(0x110000):
+            ch = chr(c)
+            img = meth(ch)
+            if c < 128:
+                if img != (chr(c + d) if lo <= c <= hi else ch):
+                    problems.append('%s of ASCII U+%04X is %r' % (meth.__name__, c, img))
+            elif any(ord(x) < 128 for x in img):
+                tab.append((c, img))
+                for ctx in ('a%sb', '%s', 'A%s', '%sZ', '\u03a3%s\u03a3', '%s' * 2):
+                    s = ctx.replace('%s', ch)
+                    want = ''.join(img if x == ch else meth(x) for x in s) if '\u03a3' not in s else None
+                    got = meth(s)
+                    if want is not None and got != want:
+                        problems.append('%s of %r is %r, not the concatenation %r' % (meth.__name__, s, got, want))
+                    if want is None and got.count(img) != s.count(ch):
+                        problems.append('%s of %r is %r' % (meth.__name__, s, got))
+            elif not img:
+                problems.append('%s of U+%04X is empty' % (meth.__name__, c))
+        tabs.append(tab)
+        # concatenation of the per-character images on mixed strings (lower(): except for the final-sigma rule, which stays non-ASCII)
+        for s in ('blac\u212a \u0130x\xdf', 'M\u0131\u017f\ufb03\u1e96q', 'a\u03a3 \u03a3b\u03a3', '\xc9\u0130\u212a\u0149Z'):
+            got = meth(s)
+            want = ''.join(meth(x) for x in s)
+            strip = lambda u: [x if ord(x) < 128 else '*' for x in u]
+            if strip(got) != strip(want) or (got != want and '\u03a3' not in s):
+                problems.append('%s of %r is %r, per character %r' % (meth.__name__, s, got, want))
+    return tabs[0], tabs[1], problems
 
 
 def seq_call(c):
